@@ -24,6 +24,16 @@ Definition run_repr (tbl : list N) (s rest : str) : obs :=
   let r := py_repr (table_printable tbl) s in
   otag "repr" [OS r; lex_flag s rest (py_lex_string (r ++ rest)%list); lex_flag s rest (py_lex_short (r ++ rest)%list)].
 
+(* the same for a block of consecutive code points lo, lo+1, ..., generated here instead of being
+   parsed from a literal (much faster); the printable code points are given as inclusive ranges *)
+Definition blk (lo : N) (n : nat) : str := map (fun i => (lo + N.of_nat i)%N) (seq 0 n).
+Definition range_printable (r : list (N * N)) (c : N) : bool :=
+  existsb (fun p => andb (N.leb (fst p) c) (N.leb c (snd p))) r.
+Definition run_block (r : list (N * N)) (lo : N) (n : nat) (rest : str) : obs :=
+  let s := blk lo n in
+  let o := py_repr (range_printable r) s in
+  otag "repr" [OS o; lex_flag s rest (py_lex_string (o ++ rest)%list); lex_flag s rest (py_lex_short (o ++ rest)%list)].
+
 (* the lexer on an arbitrary text *)
 Definition run_lex (text : str) : obs :=
   otag "lex" [lex_obs (py_lex_string text)].
